@@ -133,6 +133,12 @@ func predicateOf(c *ssa.Call) (Cmp, bool, bool) {
 				}
 			}
 		}
+		// a predicate method without arguments (`func (c *calc) hasArea() bool { return math.Abs(c.sum) > 0 }`): the
+		// operand is a value of the callee computed from its receiver; it is handed back as it is (consumers look at
+		// its shape - a call, a field load - not at its identity with values of the caller)
+		if len(callee.Params) == 1 && callee.Signature.Recv() != nil {
+			return v, true
+		}
 		return nil, false
 	}
 	x, okx := subst(inner.X)
@@ -468,6 +474,62 @@ func ReachableCorr(from *ssa.BasicBlock, blocked EdgeSet) map[*ssa.BasicBlock]bo
 			}
 			seen[s] = true
 			work = append(work, state{s, nf})
+		}
+	}
+	return seen
+}
+
+// ReachablePhi is Reachable with one refinement: a block whose branch condition is a phi of the block itself
+// (`a && b` / `a || b` evaluated as a value: the short-circuit edge carries the constant false / true) is left only
+// through the successor the constant selects when it is entered from that predecessor.
+func ReachablePhi(from *ssa.BasicBlock, blocked EdgeSet) map[*ssa.BasicBlock]bool {
+	type state struct {
+		b    *ssa.BasicBlock
+		pred *ssa.BasicBlock
+	}
+	seen := map[*ssa.BasicBlock]bool{from: true}
+	seenState := map[state]bool{}
+	work := []state{{from, nil}}
+	for len(work) > 0 {
+		st := work[len(work)-1]
+		work = work[:len(work)-1]
+		if seenState[st] {
+			continue
+		}
+		seenState[st] = true
+		b := st.b
+		only := -1
+		if ifi := BlockIf(b); ifi != nil && st.pred != nil {
+			cond, neg := ifi.Cond, false
+			for {
+				u, ok := cond.(*ssa.UnOp)
+				if !ok || u.Op != token.NOT {
+					break
+				}
+				cond, neg = u.X, !neg
+			}
+			if phi, ok := cond.(*ssa.Phi); ok && phi.Block() == b {
+				for k, p := range b.Preds {
+					if p != st.pred || k >= len(phi.Edges) {
+						continue
+					}
+					if c, isC := phi.Edges[k].(*ssa.Const); isC && c.Value != nil && c.Value.Kind() == constant.Bool {
+						v := constant.BoolVal(c.Value) != neg
+						if v {
+							only = 0
+						} else {
+							only = 1
+						}
+					}
+				}
+			}
+		}
+		for i, s := range b.Succs {
+			if blocked[[2]int{b.Index, i}] || (only >= 0 && i != only) {
+				continue
+			}
+			seen[s] = true
+			work = append(work, state{s, b})
 		}
 	}
 	return seen
